@@ -25,6 +25,8 @@ def build_cases(tier, seed=SEED, mono=False):
                 add('c%s_1d_o%d_p%d_l%d' % ('10' if mono else '09', o, p, lam), [(o, p, lam, 1 + (o + p) % 2, o + 4, 'irregular')], monodim=0 if mono else -1)
     add('c_1d_zero_w', [(2, 1, True, 2, 6, 'irregular')], zero=(1, 4), monodim=0 if mono else -1)
     add('c_1d_rev', [(1, 1, True, 2, 5, 'uniform')], rev=True, monodim=0 if mono else -1)
+    # abscissae exactly on interior knots: the basis must use half-open spans there
+    ks = knot_family('irregular', 8, 2, rng); cases.append(('c_1d_onknot', 'fit c_1d_onknot nd 1 monodim %d smoothing per porder per\n' % (0 if mono else -1) + dimline(0, 2, 1, True, ks, coords_for(ks, 2, 3, rng) + [ks[3], ks[4]]) + 'end\n', dict(dims=[(2, 1, True, 2, 5, 'irregular')], monodim=0 if mono else -1)))
     for m in ((0, 1) if mono else (-1,)):
         add('c_2d_a_m%d' % m, [(1, 1, True, 1, 4, 'irregular'), (2, 0, False, 0, 4, 'uniform')], monodim=m)
         add('c_2d_missing_m%d' % m, [(0, 0, True, 1, 3, 'irregular'), (1, 1, True, 1, 4, 'irregular')], skip=(2, 7), zero=(3,), monodim=m)
